@@ -64,6 +64,17 @@ Proof.
 Qed.
 Print Assumptions C08_wrapAny_pairs.
 
+(* … but WHICH value's location ends up in the crash message is not: with two
+   values on which wrapAny panics ("internal error: line l column c incompatible
+   types", the C03/C04 defect) the reported location follows the iteration order *)
+Theorem C08_wrapAny_panic_location_refuted : exists pi1 pi2, Permutation pi1 pi2 /\
+  wrap_loop wrap_w pi1 fempty = WrapPanic (s_ "a") /\ wrap_loop wrap_w pi2 fempty = WrapPanic (s_ "b").
+Proof.
+  exists [(s_ "a", false); (s_ "b", false)], [(s_ "b", false); (s_ "a", false)].
+  split; [apply perm_swap | vm_compute; split; reflexivity].
+Qed.
+Print Assumptions C08_wrapAny_panic_location_refuted.
+
 (* evaluator.sameMap (used by `test`): `same` cannot panic, so unconditionally *)
 Theorem C08_sameMap : forall V (same : V -> option V -> bool) (pi1 pi2 : list (str * V)) len2 got,
   Permutation pi1 pi2 -> sameMap same pi1 len2 got = sameMap same pi2 len2 got.
@@ -216,9 +227,15 @@ Local Open Scope string_scope.
 
 Definition registry : list cert := [
   {| c_id := "pkg/parser.MapLiteral.infer#1"; c_cls := OrderIndependent; c_proof := C08_mapLiteral_infer |};
-  {| c_id := "pkg/parser.wrapAny#1"; c_cls := OrderIndependent; c_proof := C08_wrapAny_pairs |};
+  (* observable result (crash or not, rewritten map) order independent; the only thing that follows the order is
+     which location a wrapAny internal-error CRASH names when two or more values trigger it
+     (C08_wrapAny_panic_location_refuted) — a crash is C03's violation, and since /repo 0e214ac no input is known
+     that makes wrapAny crash at all; harness key wrapAny-panic-location-order, a VIOLATION if it ever shows up *)
+  {| c_id := "pkg/parser.wrapAny#1"; c_cls := OrderIndependent;
+     c_proof := conj C08_wrapAny_pairs C08_wrapAny_panic_location_refuted |};
   (* the only map range left in parseMapLiteral (since e6ebb6a): Pairs[key] = wrapAny(val, sub) *)
-  {| c_id := "pkg/parser.parser.parseMapLiteral#1"; c_cls := OrderIndependent; c_proof := C08_wrapAny_pairs |};
+  {| c_id := "pkg/parser.parser.parseMapLiteral#1"; c_cls := OrderIndependent;
+     c_proof := conj C08_wrapAny_pairs C08_wrapAny_panic_location_refuted |};
   {| c_id := "pkg/parser.newParser#1"; c_cls := OrderIndependent; c_proof := C08_newParser_copy |};
   {| c_id := "pkg/parser.parser.parseProgram#1"; c_cls := OrderIndependent;
      c_proof := conj C08_parseProgram_globals C08_builtin_global_names_distinct |};
